@@ -168,4 +168,90 @@ theorem run_ok {g : Grammar} {nul : List Bool} (hn : NulSound g nul) :
       · rename_i x hx
         cases x <;> simp_all
 
+/-! ### well-formedness, unpacked -/
+
+structure WF (g : Grammar) (nul : List Bool) (rank : List Nat) : Prop where
+  nulLen : nul.length = g.rules.size
+  rankLen : rank.length = g.rules.size
+  rule : ∀ i, i < g.rules.size → ruleOK g nul rank i = true
+
+theorem wf_unpack {g : Grammar} {nul : List Bool} {rank : List Nat} (h : wf g nul rank = true) : WF g nul rank := by
+  simp only [wf, Bool.and_eq_true, beq_iff_eq, List.all_eq_true, List.mem_range] at h
+  exact ⟨h.1.1, h.1.2, h.2⟩
+
+structure RuleFacts (g : Grammar) (nul : List Bool) (rank : List Nat) (i : Nat) (body : Expr) : Prop where
+  lt : i < g.rules.size
+  exprOK : exprOK g.rules.size nul body = true
+  headOK : headOK nul rank (rank.getD i 0) body = true
+  rankLt : rank.getD i 0 < g.rules.size
+  nulClosed : nullable nul body = true → nul.getD i false = true
+
+theorem WF.facts {g : Grammar} {nul : List Bool} {rank : List Nat} (h : WF g nul rank) {i : Nat} {body : Expr}
+    (hb : g.rules[i]? = some body) : RuleFacts g nul rank i body := by
+  have hlt : i < g.rules.size := by
+    rcases Nat.lt_or_ge i g.rules.size with h1 | h1
+    · exact h1
+    · have := Array.getElem?_eq_none h1
+      rw [this] at hb; cases hb
+  have hr := h.rule i hlt
+  simp only [ruleOK, hb, Bool.and_eq_true, Bool.or_eq_true, Bool.not_eq_true', decide_eq_true_eq] at hr
+  obtain ⟨⟨⟨h1, h2⟩, h3⟩, h4⟩ := hr
+  have hrl : i < rank.length := by rw [h.rankLen]; exact hlt
+  have e1 : rank.getD i g.rules.size = rank.getD i 0 := by
+    simp [List.getD_eq_getElem?_getD, List.getElem?_eq_getElem hrl]
+  refine ⟨hlt, h1, h2, by rw [← e1]; exact h3, ?_⟩
+  intro hn
+  cases h4 with
+  | inl h4 => rw [hn] at h4; cases h4
+  | inr h4 => exact h4
+
+theorem WF.nulSound {g : Grammar} {nul : List Bool} {rank : List Nat} (h : WF g nul rank) : NulSound g nul := by
+  intro i body hb hf
+  have f := h.facts hb
+  have hnl : i < nul.length := by rw [h.nulLen]; exact f.lt
+  cases hnb : nullable nul body with
+  | false => rfl
+  | true =>
+    have := f.nulClosed hnb
+    simp [List.getD_eq_getElem?_getD, List.getElem?_eq_getElem hnl] at this hf
+    rw [this] at hf; cases hf
+
+theorem size_le_maxSize {g : Grammar} {i : Nat} {body : Expr} (hb : g.rules[i]? = some body) : size body ≤ maxSize g := by
+  have hmem : body ∈ g.rules.toList := by
+    have := Array.mem_of_getElem? hb
+    exact Array.mem_toList_iff.mpr this
+  unfold maxSize
+  generalize g.rules.toList = l at hmem
+  induction l with
+  | nil => cases hmem
+  | cons x xs ih =>
+    simp only [List.map_cons, List.foldr_cons]
+    cases hmem with
+    | head => omega
+    | tail _ h' => have := ih h'; omega
+
+/-- at the top level every call is allowed -/
+theorem headOK_top {nul : List Bool} {rank : List Nat} {K : Nat} (hr : ∀ r, r < K → rank.getD r K < K) :
+    ∀ e, exprOK K nul e = true → headOK nul rank K e = true := by
+  intro e
+  induction e with
+  | eps => intro _; rfl
+  | rng _ _ => intro _; rfl
+  | any => intro _; rfl
+  | call r => intro h; simp only [exprOK, decide_eq_true_eq] at h; simp only [headOK, decide_eq_true_eq]; exact hr r h
+  | seq a b iha ihb =>
+    intro h; simp only [exprOK, Bool.and_eq_true] at h
+    simp only [headOK, Bool.and_eq_true, Bool.or_eq_true]
+    exact ⟨iha h.1, Or.inr (ihb h.2)⟩
+  | alt a b iha ihb =>
+    intro h; simp only [exprOK, Bool.and_eq_true] at h
+    simp only [headOK, Bool.and_eq_true]
+    exact ⟨iha h.1, ihb h.2⟩
+  | star e ih => intro h; simp only [exprOK, Bool.and_eq_true] at h; simp only [headOK]; exact ih h.1
+  | plus e ih => intro h; simp only [exprOK, Bool.and_eq_true] at h; simp only [headOK]; exact ih h.1
+  | opt e ih => intro h; simp only [exprOK] at h; simp only [headOK]; exact ih h
+  | notP e ih => intro h; simp only [exprOK] at h; simp only [headOK]; exact ih h
+  | andP e ih => intro h; simp only [exprOK] at h; simp only [headOK]; exact ih h
+  | cap e ih => intro h; simp only [exprOK] at h; simp only [headOK]; exact ih h
+
 end Peg
